@@ -218,8 +218,16 @@ func newEndpoint(ep, be string) *config.EndpointConfig {
 
 // initOne runs Init on a one-endpoint service. -> accepted, error kind, endpoint after init
 func initOne(colon bool, ep, be string) (accepted bool, kind string, e *config.EndpointConfig) {
+	return initOneSeq(colon, false, ep, be)
+}
+
+// initOneSeq: the same with the endpoint's sequential-merge flag set or not
+func initOneSeq(colon, sequential bool, ep, be string) (accepted bool, kind string, e *config.EndpointConfig) {
 	setMode(colon)
 	e = newEndpoint(ep, be)
+	if sequential {
+		e.ExtraConfig = config.ExtraConfig{proxy.Namespace: map[string]interface{}{"sequential": true}}
+	}
 	sc := newService([]*config.EndpointConfig{e})
 	var err error
 	func() {
@@ -267,6 +275,35 @@ type routeSpec struct {
 	more [][]string // further value vectors sent on the same route through the same router instance
 	vals []string   // one value per parameter of the endpoint, in order
 	tag  string
+	// query strings: the endpoint's and the backend's own input_query_strings, and the raw
+	// queries of the requests (one per step, cycled); hasQS: emit CRouteQ
+	hasQS   bool
+	epQS    []string
+	beQS    []string
+	queries [][][2]string
+}
+
+func (s routeSpec) queryOf(step int) [][2]string {
+	if len(s.queries) == 0 {
+		return nil
+	}
+	return s.queries[step%len(s.queries)]
+}
+
+func rawQuery(q [][2]string) string {
+	var parts []string
+	for _, kv := range q {
+		parts = append(parts, kv[0]+"="+kv[1])
+	}
+	return strings.Join(parts, "&")
+}
+
+func queryCoq(q [][2]string) string {
+	xs := make([]string, len(q))
+	for i, kv := range q {
+		xs[i] = emit.Pair(emit.Str(kv[0]), emit.Str(kv[1]))
+	}
+	return emit.List(xs)
 }
 
 type gen struct {
@@ -315,7 +352,10 @@ func buildBatch(ad adapter, chunk []routeSpec, eptoks [][]tok, bf proxy.BackendF
 		if acc[i] && s.be2 != nil {
 			eps = append(eps, newEndpoint2(renderEp(eptoks[i]), render(s.be), render(s.be2)))
 		} else if acc[i] {
-			eps = append(eps, newEndpoint(renderEp(eptoks[i]), render(s.be)))
+			e := newEndpoint(renderEp(eptoks[i]), render(s.be))
+			e.QueryString = append([]string(nil), s.epQS...)
+			e.Backend[0].QueryStringsToPass = append([]string(nil), s.beQS...)
+			eps = append(eps, e)
 		}
 	}
 	setMode(ad.colon)
@@ -384,6 +424,9 @@ func (g *gen) runRoutes(specs []routeSpec, stream string) {
 						continue
 					}
 					path := requestPath(fmt.Sprintf("/e%d", i), s.segs, st[k])
+					if q := s.queryOf(k); len(q) > 0 {
+						path += "?" + rawQuery(q)
+					}
 					cap.reset()
 					rec := httptest.NewRecorder()
 					panicked := false
@@ -414,6 +457,14 @@ func (g *gen) runRoutes(specs []routeSpec, stream string) {
 					term := emit.App("CRoute", ad.name, toksCoq(eptoks[i]), toksCoq(s.be), emit.Str(ept), emit.Str(bet), emit.StrList(vals), r.term)
 					js := map[string]interface{}{"kind": "route", "stream": stream, "adapter": ad.name, "endpoint": ept, "url_pattern": bet,
 						"values": vals, "observed": r.js, "tag": s.tag}
+					if s.hasQS {
+						term = emit.App("CRouteQ", ad.name, toksCoq(eptoks[i]), toksCoq(s.be), emit.Str(ept), emit.Str(bet), emit.StrList(vals),
+							emit.StrList(s.epQS), emit.StrList(s.beQS), queryCoq(s.queryOf(k)), r.term)
+						js["endpoint_input_query_strings"] = s.epQS
+						js["backend_input_query_strings"] = s.beQS
+						js["query"] = rawQuery(s.queryOf(k))
+						g.w.Count("route:with-query-string")
+					}
 					ps := params(s.segs)
 					g.w.Count("route:" + stream)
 					g.w.Count(fmt.Sprintf("route:params=%d", len(ps)))
@@ -422,6 +473,9 @@ func (g *gen) runRoutes(specs []routeSpec, stream string) {
 						g.w.Count("route:same-instance-same-route-again")
 					}
 					canon := fmt.Sprintf("R|%s|%s|%s|%s", ad.name, renderEp(s.segs), bet, strings.Join(vals, "/"))
+					if s.hasQS {
+						canon += fmt.Sprintf("|Q|%v|%v|%s", s.epQS, s.beQS, rawQuery(s.queryOf(k)))
+					}
 					g.w.Add(term, js, "", canon, len(ps) > 0 && len(params(s.be)) > 0)
 					if s.be2 != nil {
 						bet2 := render(s.be2)
@@ -778,6 +832,17 @@ func (g *gen) initCase(colon bool, ep, be []tok, stream string) {
 	g.w.Add(term, js, "", fmt.Sprintf("I|%v|%s|%s", colon, ept, bet), !acc)
 }
 
+func (g *gen) initCaseS(colon, sequential bool, ep, be []tok, stream string) {
+	ept, bet := renderEp(ep), render(be)
+	acc, kind, _ := initOneSeq(colon, sequential, ept, bet)
+	term := emit.App("CInitS", emit.Bool(colon), emit.Bool(sequential), toksCoq(ep), toksCoq(be), emit.Str(ept), emit.Str(bet), emit.Bool(acc))
+	js := map[string]interface{}{"kind": "init", "stream": stream, "colon_mode": colon, "sequential": sequential, "endpoint": ept, "url_pattern": bet,
+		"observed": map[string]interface{}{"accepted": acc, "error": kind}}
+	g.w.Count("init:" + stream)
+	g.w.Count("init:error:" + strings.SplitN(kind, ":", 2)[0])
+	g.w.Add(term, js, "", fmt.Sprintf("IS|%v|%v|%s|%s", colon, sequential, ept, bet), !acc)
+}
+
 func (g *gen) initRaw(colon bool, ept, bet string, stream string) {
 	acc, kind, _ := initOne(colon, ept, bet)
 	term := emit.App("CInit", emit.Bool(colon), emit.Str(ept), emit.Str(bet), emit.Bool(acc))
@@ -970,6 +1035,55 @@ func main() {
 			g.initCase(colon, epToks([]tok{lit("x"), ph(perm[0]), ph(perm[1]), ph(perm[2])}), []tok{lit("/b/"), ph("id"), lit("/"), ph("cat"), lit("/"), ph("Id")}, "corpus")
 		}
 	}
+
+	// ---- 1a'. names in the neighbourhood of the sequential-merge reference syntax
+	// (resp<digits>_<x>, JWT.<x>): declared and used, and used without being declared; Init with
+	// the sequential flag off and on
+	near := []string{"Resp0_id", "resp0_id", "RESP0_id", "rESP0_id", "rEsp0_id", "respx", "resp0", "Resp_0", "resp_0", "resp0_", "Resp0_", "resp00_ab", "Resp12_a",
+		"xresp0_x", "resp0x_y", "Resp0x_y", "JWT", "JWTx", "JWT_a", "jwt_a", "Jwt-a"}
+	nearBE := []string{"JWT.a", "jwt.a", "Jwt.a", "JWT.", "xJWT.a", "Resp0_a.b", "resp0_a.b", "RESP1_a/b"}
+	specs = nil
+	for _, n := range near {
+		specs = append(specs,
+			routeSpec{segs: []tok{ph(n)}, be: []tok{lit("/b/"), ph(n)}, vals: []string{"v1"}, tag: "near-seq-declared"},
+			routeSpec{segs: []tok{ph("a")}, be: []tok{lit("/b/"), ph(n), lit("/"), ph("a")}, vals: []string{"v1"}, tag: "near-seq-undeclared"})
+	}
+	for _, n := range nearBE {
+		specs = append(specs, routeSpec{segs: []tok{ph("a")}, be: []tok{lit("/b/"), ph(n), lit("/"), ph("a")}, vals: []string{"v1"}, tag: "near-seq-undeclared"})
+	}
+	g.runRoutes(specs, "near-seq")
+	for _, sequential := range []bool{false, true} {
+		for ci, colon := range []bool{true, false} {
+			for ni, n := range near {
+				if (ni+ci)%2 == 0 || cfg.Thorough() {
+					g.initCaseS(colon, sequential, epToks([]tok{lit("u"), ph(n)}), []tok{lit("/b/"), ph(n)}, "near-seq")
+				}
+				g.initCaseS(colon, sequential, epToks([]tok{lit("u"), ph("a")}), []tok{lit("/b/"), ph(n)}, "near-seq")
+			}
+			for _, n := range nearBE {
+				g.initCaseS(colon, sequential, epToks([]tok{lit("u"), ph("a")}), []tok{lit("/b/"), ph(n)}, "near-seq")
+			}
+		}
+	}
+
+	// ---- 1a''. query strings: the endpoint lets keys through that the backend's own
+	// input_query_strings drops (the backend stack then rebuilds the request) - the path that
+	// reaches the backend must not change
+	specs = nil
+	type qsCfg struct{ ep, be []string }
+	qsCfgs := []qsCfg{
+		{[]string{"keep", "drop"}, []string{"keep"}}, {[]string{"*"}, []string{"keep"}}, {[]string{"keep", "drop"}, []string{"other"}},
+		{[]string{"keep", "drop"}, nil}, {[]string{"keep"}, []string{"keep", "drop"}}, {nil, []string{"keep"}}, {[]string{"*"}, []string{"*"}},
+	}
+	queries := [][][2]string{{{"keep", "1"}, {"drop", "2"}}, {{"drop", "2"}}, {{"keep", "1"}}, nil, {{"drop", "x"}, {"zzz", "y"}, {"keep", "k"}}}
+	for ci, c := range qsCfgs {
+		specs = append(specs,
+			routeSpec{segs: []tok{ph("userId"), lit("x"), ph("n")}, be: []tok{lit("/b/"), ph("userId"), lit("/x/"), ph("n")}, vals: []string{"Ab-c", "42"},
+				more: [][]string{{"u2", "7"}, {"u3", "8"}, {"u4", "9"}, {"u5", "10"}}, hasQS: true, epQS: c.ep, beQS: c.be, queries: queries, tag: "query-strings"},
+			routeSpec{segs: []tok{ph("id")}, be: []tok{lit("/o/"), ph("id")}, vals: []string{fmt.Sprintf("i%d", ci)},
+				more: [][]string{{"j"}, {"k"}}, hasQS: true, epQS: c.ep, beQS: c.be, queries: queries[ci%len(queries):], tag: "query-strings"})
+	}
+	g.runRoutes(specs, "query-strings")
 
 	// ---- 1b. instance reuse: ONE router instance per adapter serves the whole sequence -------
 	// (step-major: every route once, then every route again with other values, ...)
@@ -1290,5 +1404,5 @@ func main() {
 		g.initRaw(r.Bool(), mk(1+r.Intn(6)), mk(1+r.Intn(6)), "malformed")
 	}
 
-	w.Close("corpus (40 names incl. lengths 20..80 x 5 adapters, every order of 3-4 parameters containing a first-character-case pair, collisions, raw patterns) -> several endpoints per configuration (every ordered selection of 2-3 (thorough 4) of 6 endpoints, some using a parameter only another endpoint declares; Init of the whole, then every endpoint routed) and instance reuse (one router instance per adapter: 3-5 different value vectors per route, routes alternating; 12 goroutines x 40 rounds over 12 inputs per adapter, distinct (input, observation) pairs) -> library casers vs ASCII models (all names of length <= 4 (thorough 5) over abAB01-_zZ9, all 256 single bytes) -> every name of length <= 4 (thorough 6) over {a,B,1,-,_} routed under each of the 5 adapters; 0..4 parameters with every sequence of <= 3 uses; declared x used subsets of {a,A,b,ab} through Init in both routing modes -> random names over the whole grammar, 1-4 parameters, random url_pattern shapes, unreserved values -> malformed raw patterns through Init; nontrivial = a parameter is declared and used (route) / Init rejects (init)", true)
+	w.Close("corpus (40 names incl. lengths 20..80 x 5 adapters, every order of 3-4 parameters containing a first-character-case pair, names next to the resp<N>_/JWT. reference syntax declared and undeclared with the sequential flag off/on, endpoint/backend input_query_strings x client queries with dropped keys, collisions, raw patterns) -> several endpoints per configuration (every ordered selection of 2-3 (thorough 4) of 6 endpoints, some using a parameter only another endpoint declares; Init of the whole, then every endpoint routed) and instance reuse (one router instance per adapter: 3-5 different value vectors per route, routes alternating; 12 goroutines x 40 rounds over 12 inputs per adapter, distinct (input, observation) pairs) -> library casers vs ASCII models (all names of length <= 4 (thorough 5) over abAB01-_zZ9, all 256 single bytes) -> every name of length <= 4 (thorough 6) over {a,B,1,-,_} routed under each of the 5 adapters; 0..4 parameters with every sequence of <= 3 uses; declared x used subsets of {a,A,b,ab} through Init in both routing modes -> random names over the whole grammar, 1-4 parameters, random url_pattern shapes, unreserved values -> malformed raw patterns through Init; nontrivial = a parameter is declared and used (route) / Init rejects (init)", true)
 }
